@@ -17,6 +17,9 @@ PROP = {'counts': {'quick': 4, 'thorough': 60},
                  'config = defaults, ForceReadOnly)',
                  'memtables are large (no automatic flush): the primary rotates its log at the explicit '
                  'FlushImMemTables of the scenario',
+                 'the replica never sends an acknowledgement (its loop never observes the ACKNOWLEDGING state), '
+                 'so a session\'s LastAckSequence stays StartSequence-1 and the catch-up always re-fetches from the '
+                 'session start: modelled as such; convergence does not depend on acknowledgements',
                  'the first response of a fresh stream reaches the waiting receiver (a stall of more than 1 s '
                  'between opening a stream and its first response is not modelled)'],
  'partial': '"bounded time" is rounds in the model (C14_converges: 2*(lacking sequence numbers)+3 rounds plus '
